@@ -431,8 +431,12 @@ func (u *upstream) doSlotsRefresh() error {
 	}
 	u.MakeRequestToHost(addr, req)
 
-	// wait done
-	req.Wait()
+	// wait done, but not for a node that never answers while shutting down
+	select {
+	case <-req.done:
+	case <-u.quit:
+		return errors.New(upstreamExited)
+	}
 	resp := req.Response()
 	if resp.Type == Error {
 		return errors.New(string(resp.Text))
